@@ -79,16 +79,15 @@ KFClass(cls, dev) == J => (S \/ StepClass(ph, pe, po) # cls \/ NotifOK(ph, pe, p
 
 C07_Collision_KF == TRUE       \* KF-C07-collision: collisions are never resolved (loser kept open)
 C07_Transitions_KF == J => (S \/ P_Transitions(ph, pe, po))
-C07_EstablishedOnlyAfterOpenKeepalive_KF ==
-  J => (S \/ P_EstablishedOnlyAfterOpenKeepalive(ph, pe, po, h) \/ Dev_TaintedEstablished(ph, pe, po, h))
+C07_EstablishedOnlyAfterOpenKeepalive_KF == J => (S \/ P_EstablishedOnlyAfterOpenKeepalive(ph, pe, po, h))
 C07_Notification_KF == J => (S \/ (P_Notification(ph, pe, po) /\ P_NoHardResetWithoutN(ph, pe, po)))
-C07_Notif_OpenConfirmUnexpected_KF == KFClass("OCUnexpected", Dev_OCUnexpected(ph, pe, po))
-C07_Notif_EstablishedOpen_KF == KFClass("EstOpen", Dev_EstOpen(ph, pe, po))
-C07_Notif_UnsupportedOptParam_KF == KFClass("UnsupOpt", Dev_UnsupOpt(ph, pe, po))
-C07_Notif_KeepaliveLength_KF == KFClass("KaLen", Dev_KaLen(ph, pe, po))
+C07_Notif_OpenConfirmUnexpected_KF == J => (S \/ P_NotifClass("OCUnexpected", ph, pe, po))   \* repaired: strict unless suspended
+C07_Notif_EstablishedOpen_KF == J => (S \/ P_NotifClass("EstOpen", ph, pe, po))   \* repaired: strict unless suspended
+C07_Notif_UnsupportedOptParam_KF == J => (S \/ P_NotifClass("UnsupOpt", ph, pe, po))   \* repaired: strict unless suspended
+C07_Notif_KeepaliveLength_KF == J => (S \/ P_NotifClass("KaLen", ph, pe, po))   \* repaired: strict unless suspended
 C07_Notif_OpenWhileIdle_KF == KFClass("IdleOpen", Dev_IdleOpen(ph, pe, po))
 C07_Notif_ManualStopEarly_KF == KFClass("ManualStopEarly", Dev_ManualStopEarly(ph, pe, po))
-C07_Notif_NoSpurious_KF == KFClass("Spurious", Dev_Spurious(ph, pe, po))
+C07_Notif_NoSpurious_KF == J => (S \/ P_NotifClass("Spurious", ph, pe, po))   \* repaired: strict unless suspended
 C07_TimerInstant_KF == J => (S \/ P_TimerInstant(ph, pe, po, LargeHold))
 C07_Timer_OpenConfirm_KF ==
   J => (S \/ P_Timer_OpenConfirm(ph, pe, po, LargeHold) \/ Dev_Timer_OpenConfirm(ph, pe, po, LargeHold))
